@@ -646,6 +646,9 @@ impl Prop for Dynamic {
         }
         if kind.uses_factor() {
             rec.class(&format!("factor-{}", factor));
+            // every (re-)encoding asks the factory for a fresh solver
+            let encodings = shared.instances.borrow().len();
+            rec.class(&format!("attack-variant-encodings-{}", encodings.min(6)));
         }
         rec.count("queries", queries as u64);
         let nt = if self.faults {
